@@ -556,6 +556,66 @@ func run(e *core.Env) {
 		selfLoop(w, tp.Intn(2))
 	}
 
+	// ---- an impostor: another router's address with a key pair of its own ----
+	// Router Q exists and its identity has been verified in this process a moment ago (it linked
+	// with the other router, or was simply checked) - the victim itself has never met Q. Then a
+	// router whose configured identity is Q's address data with its *own* key pair runs the
+	// shipped handshake with the victim, in the victim's universe and knowing its secret: all it
+	// signs verifies under the key it presents, but that key is not the one Q's address is
+	// derived from. No link to Q may result and the victim must not keep the impostor's key for Q.
+	if tp.Chance(1, 2) {
+		time.Sleep(time.Second + time.Duration(tp.Intn(2000))*time.Millisecond)
+		v := tp.Intn(2)
+		V := w.S[v]
+		qID, mID := ident.Get(ident.Routable, perm[3]), ident.Get(ident.Routable, perm[4])
+		if tp.Chance(1, 2) {
+			qst := node.BaseStore(qID)
+			qst.Router.Universe, qst.Router.UniverseSecret = uni[1-v], sec[1-v]
+			Q := linkpair.NewStack(e, "q", qID, qst, false)
+			qa := linkpair.Dial(w.cn, Q, w.S[1-v])
+			w.cn.DrainFIFO(tp, 200)
+			for _, l := range Q.Node.Peering.GetLinks() {
+				l.Close(nil)
+			}
+			w.cleanupAttempt(qa)
+			_ = Q.Listener.Close()
+			Q.Node.Kill()
+			simnet.Wait()
+			e.Probe("impostor_after_the_genuine_router_linked_elsewhere")
+		} else if err := qID.PublicAddress.VerifyAddress(); err != nil {
+			e.Infra("valid identity does not verify: %v", err)
+		}
+		imp := *mID
+		imp.IP = qID.IP
+		ist := node.BaseStore(&imp)
+		ist.Router.Universe, ist.Router.UniverseSecret = uni[v], sec[v]
+		I := linkpair.NewStack(e, "impostor", &imp, ist, false)
+		var ia *linkpair.Attempt
+		if tp.Chance(2, 3) {
+			ia = linkpair.Dial(w.cn, I, V)
+		} else {
+			ia = linkpair.Dial(w.cn, V, I)
+		}
+		w.cn.DrainFIFO(tp, 200)
+		e.Fault("impostor_handshake")
+		linkedQ := V.Node.Peering.GetLink(qID.IP) != nil
+		e.Ev("impostor", uint64(v), b2u(linkedQ))
+		if linkedQ {
+			e.Fail("link-registered-to-an-impostor", "%s: %s registered a link to %s after a handshake with a router that presented this address with a key pair of its own (the address is not derived from that key)", w.desc, V.Node.Name, qID.IP)
+		}
+		if r, err := V.Node.Storage.GetRouter(qID.IP); err == nil && r != nil && r.Address != nil && !bytes.Equal(r.Address.PublicKey, qID.PublicKey) {
+			e.Fail("link-registered-to-an-impostor", "%s: after the impostor's handshake %s stores a key for %s that the address is not derived from", w.desc, V.Node.Name, qID.IP)
+		}
+		for _, l := range I.Node.Peering.GetLinks() {
+			l.Close(nil)
+		}
+		w.cleanupAttempt(ia)
+		_ = I.Listener.Close()
+		I.Node.Kill()
+		simnet.Wait()
+		e.Probe("impostor_left_no_link")
+	}
+
 	// ---- a dishonest remote end ----
 	// So far the adversary sat on the wire between two honest routers. Here the remote end
 	// itself is the adversary: an outsider with a valid identity of its own runs the shipped
